@@ -3,6 +3,7 @@ package rules
 import (
 	"go/token"
 	"go/types"
+	"strings"
 
 	"conduitlint/kit"
 
@@ -98,6 +99,22 @@ func runC13(c *Ctx) {
 					gFail.AddEdges(kit.FailEdges(o), "")
 				}
 				c.Dominated(r3, "applyPendingSwap: the new processor is torn down only when its Open failed", []ssa.Instruction{t}, gFail, "the Open failure edge")
+			}
+		}
+		// the answer agrees with what runs: once the new processor is switched in the caller is answered nil (an
+		// error — e.g. the old processor's teardown failing — makes provisioning roll the store back to the old
+		// configuration while the node keeps running the new one)
+		for _, b := range fn.Blocks {
+			for _, in := range b.Instrs {
+				sd, ok := in.(*ssa.Send)
+				if !ok {
+					continue
+				}
+				for _, st := range stores {
+					if kit.InstrDominates(st, sd) {
+						c.R.Check(kit.IsNilConst(sd.X), r3, "applyPendingSwap: after the replacement the caller is answered nil", c.Pos(sd.Pos()), "nil", "an error is answered although the new processor is already switched in: Reconfigure reports a failed swap, applyInPlace rolls the store back to the old configuration and skips re-swapping this node, which keeps processing every later record with the new one — store and running node disagree", true)
+					}
+				}
 			}
 		}
 		// failure edge: no replacement reachable, error answer non-nil
@@ -261,6 +278,7 @@ func runC13(c *Ctx) {
 		ok, _ := kit.AllExitsFromEdge(kit.Edge{To: fn.Blocks[0]}, false, kit.ExitSpec{Gates: g})
 		c.R.Check(ok && !g.Empty(), r9, "applyPendingSwap: every exit has read the pending slot under swapMu", c.Pos(fn.Pos()), "ok", "applyPendingSwap can return without reading the pending slot under swapMu (a flag or other shortcut in front of the lock): a request staged while a swap is in flight is never applied and its caller blocks", true)
 	}
+	rollbackSnapshotAs(c, c.R.Rule("R10", "K6/K3 a failed in-place apply really rolls back: the config rollbackInPlace re-imports flows from an Export taken before transactionalImport(desired) committed the new one (never from an export/callback evaluated on the failure path)", 3))
 	r6 := c.R.Rule("R6", "K1/K3 live-swap pairing: closed callers; the store is updated before any node is swapped; a rollback restores the store before re-swapping and always restores it", 8)
 	c.WhoMayRef(r6, "processor.Service.UpdateWhileRunning", c.Fam(c.Fn(r6, pProc, "(*Service).UpdateWhileRunning")), []string{pProv + ".(updateProcessorAction).update"})
 	reconf := c.Fam(c.Fn(r6, pProv, "LifecycleService.ReconfigureProcessor"))
@@ -290,6 +308,116 @@ func runC13(c *Ctx) {
 		for _, i := range imports {
 			a := i.Common().Args
 			c.R.Check(fromParam(a[len(a)-1], argParam(fn, 2)), r6, "rollbackInPlace: restores the OLD config", c.Pos(i.Pos()), "ok", "rollbackInPlace imports something other than the old config", true)
+		}
+	}
+}
+
+// rollbackSnapshotAs: the in-place apply commits the desired config first and swaps the nodes afterwards; when a swap
+// fails it imports the previous config again. That previous config has to be a snapshot exported BEFORE the commit —
+// an export taken afterwards (lazily, on the failure path) is the desired config, the rollback a no-op: the caller
+// gets the error, the store keeps the rejected config and the nodes swapped so far keep running it.
+func rollbackSnapshotAs(c *Ctx, r string) {
+	ti := c.Fn(r, pProv, "(*Service).transactionalImport")
+	exp := c.Fn(r, pProv, "(*Service).Export")
+	live := c.SSA(r, pProv, "(*Service).ApplyPlanLive")
+	apply := c.SSA(r, pProv, "(*Service).applyInPlace")
+	rb := c.SSA(r, pProv, "(*Service).rollbackInPlace")
+	if ti == nil || exp == nil || live == nil || apply == nil || rb == nil {
+		return
+	}
+	fns := []*ssa.Function{live, apply, rb}
+	isCfg := func(t types.Type) bool {
+		n, ok := t.(*types.Named)
+		return ok && n.Obj().Name() == "Pipeline" && n.Obj().Pkg() != nil && strings.HasSuffix(n.Obj().Pkg().Path(), "/provisioning/config")
+	}
+	type origin struct {
+		kind string // "entry", "export", "other"
+		call ssa.CallInstruction
+		fn   *ssa.Function
+	}
+	var originOf func(v ssa.Value, fn *ssa.Function, depth int) origin
+	originOf = func(v ssa.Value, fn *ssa.Function, depth int) origin {
+		if depth <= 0 {
+			return origin{kind: "other"}
+		}
+		for _, e := range kit.CallsToOK(fn, Set(exp), 2) {
+			ev := e.Value()
+			if ev != nil && kit.DerivesFrom(v, func(x ssa.Value) bool {
+				if x == ssa.Value(ev) {
+					return true
+				}
+				ex, ok := x.(*ssa.Extract)
+				return ok && ex.Tuple == ssa.Value(ev)
+			}) {
+				return origin{kind: "export", call: e, fn: fn}
+			}
+		}
+		for i, prm := range fn.Params {
+			if !isCfg(prm.Type()) || !fromParam(v, prm) {
+				continue
+			}
+			if fn == live {
+				return origin{kind: "entry"}
+			}
+			var got *origin
+			for _, caller := range fns {
+				for _, fl := range kit.WithAnon(caller) {
+					for _, call := range kit.CallsTo(fl, Set(fn.Object().(*types.Func))) {
+						a := call.Common().Args
+						if i >= len(a) {
+							continue
+						}
+						o := originOf(a[i], fl, depth-1)
+						if got == nil {
+							got = &o
+						} else if got.kind != o.kind || got.call != o.call {
+							return origin{kind: "other"}
+						}
+					}
+				}
+			}
+			if got != nil {
+				return *got
+			}
+			return origin{kind: "other"}
+		}
+		return origin{kind: "other"}
+	}
+	var commits = map[*ssa.Function][]ssa.CallInstruction{}
+	type rbImport struct {
+		call ssa.CallInstruction
+		fn   *ssa.Function
+		o    origin
+	}
+	var rollbacks []rbImport
+	for _, fn := range []*ssa.Function{apply, rb} {
+		for _, call := range kit.CallsTo(fn, Set(ti)) {
+			a := call.Common().Args
+			o := originOf(a[len(a)-1], fn, 4)
+			if o.kind == "entry" {
+				commits[fn] = append(commits[fn], call)
+			} else {
+				rollbacks = append(rollbacks, rbImport{call, fn, o})
+			}
+		}
+	}
+	c.R.Check(len(commits[apply]) >= 1, r, "applyInPlace: commits the desired config", c.Pos(apply.Pos()), "found", "no transactionalImport of the desired config found in applyInPlace", true)
+	c.R.Check(len(rollbacks) >= 1, r, "in-place apply: a rollback import exists", c.Pos(rb.Pos()), "found", "no transactionalImport of a previous config found in applyInPlace / rollbackInPlace", true)
+	for _, x := range rollbacks {
+		key := kit.FuncKey(x.fn) + ": the restored config is a snapshot exported before the commit"
+		switch {
+		case x.o.kind == "export" && x.o.fn == live:
+			c.R.Pass(r, key, c.Pos(x.call.Pos()), "exported in ApplyPlanLive at "+c.Pos(x.o.call.Pos())+", before applyInPlace is entered", true)
+		case x.o.kind == "export" && x.o.fn == apply:
+			ok := true
+			for _, cm := range commits[apply] {
+				if !kit.InstrDominates(x.o.call, cm) {
+					ok = false
+				}
+			}
+			c.R.Check(ok, r, key, c.Pos(x.o.call.Pos()), "exported before the commit import", "the config the rollback restores is exported after the desired config was committed: it IS the desired config — the rollback is a no-op, the failed apply leaves the rejected config stored and partly running", true)
+		default:
+			c.R.Fail(r, key, c.Pos(x.call.Pos()), "the config the rollback restores is not a value exported before transactionalImport(desired) (it is produced on the failure path — a lazy export, a callback, or an export inside rollbackInPlace — i.e. after the commit): it equals the desired config, the rollback is a no-op, and the failed apply leaves the rejected config stored and partly running while the caller is told it failed")
 		}
 	}
 }
